@@ -528,7 +528,66 @@ pub fn run(kv: &Args) -> i32 {
             oracle_fail.push(format!("choices recorded in the receiver output differ from the requested ones -- {desc}"));
         }
     }
+    // ---- implementation-only sweep (no model run, so it is cheap): more seed patterns x choice vectors x session ids,
+    //      checked against the property itself
+    let mut known: Vec<String> = vec![];
+    let n_sweep = if kv.thorough() { 600 } else { 72 };
+    for case in 0..n_sweep {
+        let sid_len = [32usize, 0, 1, 33, 64, 100][case % 6];
+        let mut sid = vec![0u8; sid_len];
+        r.fill_bytes(&mut sid);
+        let pat = case % 12;
+        let d: [u8; TREES] = std::array::from_fn(|i| match pat {
+            0 => 0,
+            1 => if i < TREES / 2 { 0 } else { 15 },
+            2 => if i < TREES / 2 { 15 } else { 0 },
+            3 => if i == TREES - 1 { 1 } else { 0 },
+            4 => if i == 0 { 8 } else { 0 },
+            5 => if i == (case / 12) % TREES { 1 << ((case / 12) % 4) } else { 0 },
+            6 => (i % 2) as u8,
+            7 => 15,
+            8 => if i % 16 < 8 { 0 } else { (r.next_u32() % 16) as u8 },
+            9 => (i % 16) as u8,
+            _ => (r.next_u32() % 16) as u8,
+        });
+        let (sseed, rseed) = hand_seeds(&mut r, &d, case % 2 == 0);
+        let (choices, choice_name) = choice_vector(case / 3, &mut r);
+        let mut choices = choices;
+        if case % 9 == 8 {
+            // a 16-byte aligned all-zero block inside an otherwise random vector
+            r.fill_bytes(&mut choices);
+            let blk = (case / 9) % (LB / 16);
+            for b in choices[blk * 16..(blk + 1) * 16].iter_mut() { *b = 0; }
+        }
+        let mut tape = [0u8; SB];
+        r.fill_bytes(&mut tape);
+        let buf = vec![0u8; MSG_BYTES];
+        let desc = format!("sweep {case}: sid_len={sid_len} delta={} choices={choice_name} sid={} choices_hex={} tape={}",
+            hx(&d), hx(&sid), hx(&choices), hx(&tape));
+        n_eval += 1;
+        *kinds.entry("oracle-only-sweep".into()).or_default() += 1;
+        distinct.insert(format!("sweep/{pat}/{}/{sid_len}", choice_name.trim_end_matches(char::is_numeric)));
+        let Some((msg, ch_out, vx)) = real_recv(&sid, &sseed, &buf, &choices, &tape, 0) else {
+            oracle_fail.push(format!("receiver panicked: {desc}"));
+            continue;
+        };
+        match real_send(&sid, &rseed, &msg) {
+            Verdict::Ok(v0, v1) => {
+                let nabla_zero = d.iter().all(|x| *x == 0);
+                if let Some(why) = property_oracle(&choices, &ch_out, &vx, &v0, &v1, nabla_zero) {
+                    oracle_fail.push(format!("{why} -- {desc} enc_keys={}", hx(bytemuck::bytes_of(&sseed.otp_enc_keys))));
+                } else if nabla_zero && v0 == v1 {
+                    known.push(format!("key=C03-all-punctured-indices-zero v_0 == v_1 for every transfer when all 64 punctured indices are 0 -- {}", &desc[..desc.len().min(300)]));
+                }
+            }
+            other => oracle_fail.push(format!("honest first-round message not accepted ({}) -- {desc} enc_keys={}", other.tag(),
+                hx(bytemuck::bytes_of(&sseed.otp_enc_keys)))),
+        }
+    }
     let mut f = std::fs::File::create(format!("{out}/result.txt")).unwrap();
+    if let Some(k) = known.first() {
+        writeln!(f, "KNOWN {k}").unwrap();
+    }
     writeln!(f, "evaluations {n_eval}").unwrap();
     writeln!(f, "mutations {}", distinct.len().max(n_nontrivial as usize)).unwrap();
     writeln!(f, "oracle_queries {}", drv.queries).unwrap();
